@@ -289,8 +289,11 @@ Definition delta_cells (metric : bytes) (alpha : b64) (pe : b64 * terr) (o n : m
       if b64_eq (m_mean n) (m_mean o) then (f_zero, bs "0.00%", 0)
       else
         let pct := pct_delta (m_mean o) (m_mean n) in
+        (* hooks/fix_c17_change_direction.diff: the direction is that of the
+           means (new.Mean < old.Mean), not the sign of pct, which is the
+           wrong way round for a negative old mean *)
         (pct, fmt_delta pct,
-         if Bool.eqb (b64_lt pct f_zero) (negb (beq metric s_speed)) then 1 else -1)
+         if Bool.eqb (b64_lt (m_mean n) (m_mean o)) (negb (beq metric s_speed)) then 1 else -1)
     else (f_zero, s_tilde, 0) in
   let note := err_note e in
   let note := if is_empty note && negb (b64_eq pval f_m1)
@@ -379,7 +382,10 @@ Section Tables.
     | Some o => go_stable_sort (order_less o) (plain_rows unit)
     end.
 
-  (** the non-zero means of one config, in first-appearance order *)
+  (** the non-zero means of one config, in first-appearance order: addGeomean
+      ranges over EVERY benchmark of the collection that has statistics for
+      this unit and configuration, whether or not the table shows a row for it
+      (an old-new table omits a benchmark that one configuration lacks) *)
   Definition nonzero_means (unit cf : bytes) : list b64 :=
     concat (map (fun '(g, b) =>
                    match stat_of (mkKey cf g b unit) with
